@@ -42,3 +42,11 @@ Proof. vm_compute. reflexivity. Qed.
 Require SrcParamsOK.
 Definition C01_source_constants := (SrcParamsOK.compute_constants_v1, SrcParamsOK.compute_constants_v2, SrcParamsOK.compute_constants_v3,
   SrcParamsOK.cube_next_digit_identities, SrcParamsOK.format_constants).
+
+(* the result depends only on the value of the radicand / rational: equal fractions, whatever constructor or
+   representation supplied them (big.Rat reduces, int64 pairs do not), give the same exponent, digits and end *)
+Require ValueOnly.
+Theorem C01_value_only : forall num den num' den' n, (0 < den)%Z -> (0 < den')%Z -> (num * den' = num' * den)%Z ->
+  ctor KSqrt num den n = ctor KSqrt num' den' n.
+Proof. exact (ValueOnly.ctor_value_only KSqrt). Qed.
+Print Assumptions C01_value_only.
